@@ -224,6 +224,8 @@ theorem decimal_string (s : List Char) (h : DecStr s)
     exact c (Or.inr (by exact_mod_cast h1))
 
 example : DecStr "1234".toList := ⟨by decide, by decide⟩
+example : strToInt48 "1234".toList = .error .addrFormat ∧ strToInt64 "1234".toList = .error .addrFormat := ⟨by rfl, by rfl⟩
+example : strToInt48 " 12_34 ".toList = .error .addrFormat ∧ Py.pyInt 10 " 12_34 ".toList = some 1234 := ⟨by rfl, by rfl⟩
 example : ofAnyF (.str "1234".toList) none = .ok (48, 1234) := by rfl
 example : ofAnyF (.str "281474976710656".toList) none = .ok (64, 2 ^ 48) := by rfl
 example : ofAnyF (.str "1234".toList) (some 48) = .error .addrFormat := by rfl
@@ -280,7 +282,9 @@ theorem trailing_newline (s : List Char) (h : '\n' ∉ s) :
   · rw [ofAnyF_some48, ofAnyF_some48]; simp only [setExplicitF, strToInt, if_true, a]
   · rw [ofAnyF_some64, ofAnyF_some64]; simp only [setExplicitF, strToInt, show ¬ (64 = 48) by decide, if_false, b]
 
+example : '\n' ∉ "00-1B-77-49-54-FD".toList := by decide
 example : ofAnyF (.str "00-1B-77-49-54-FD\n".toList) none = .ok (48, 0x001b774954fd) := by rfl
+example : ofAnyF (.str "1234\n".toList) none = .ok (48, 1234) := by rfl
 example : ofAnyF (.str "00-1B-77-49-54-FD\n\n".toList) none = .error .addrFormat := by rfl
 
 /-! ## slicing -/
@@ -322,6 +326,8 @@ theorem getSlice_whole (v : Nat) (d : Dialect) (hv : v < 2 ^ (d.numWords * d.wor
     getSlice v d none none (some (-1)) = (intToWords v d.wordSize d.numWords).map List.reverse :=
   ⟨getSlice_all v d hv, getSlice_rev v d hv⟩
 
+example : Py.sliceIndices (some (-2)) none (some (-1)) 6 = some (4, -1, -1) := by rfl
+example : getSlice 0x001b774954fd macDefault (some (-2)) none (some (-1)) = .ok [0x54, 0x49, 0x77, 0x1b, 0x00] := by rfl
 example : getSlice 0x001b774954fd ⟨"mac_cisco", 16, 3, ['.'], 4, false⟩ (some 1) none none = .ok [0x7749, 0x54fd] := by rfl
 example : getSlice 0x001b774954fd macDefault (some 1) (some 5) (some 2) = .ok [0x1b, 0x49] := by rfl
 example : getSlice 0x001b774954fd macDefault none none (some 0) = .error .value := by rfl
